@@ -47,6 +47,24 @@ func twin(t *rapid.T, n Name) Name {
 	}
 	i := rapid.IntRange(0, len(m)-1).Draw(t, "ti")
 	c := m[i]
+	if len(m) >= 2 && rapid.IntRange(0, 3).Draw(t, "hashTwin") == 0 {
+		// the same bytes split differently between a value and the next component's type when
+		// both are written as "8-byte type, value" without a length: /8=%00/256= and /8=/1=%00
+		// (a hash built that way collides by construction; found by the thorough tier, now a
+		// generated class)
+		j := rapid.IntRange(0, len(m)-2).Draw(t, "hj")
+		a, b := m[j], m[j+1]
+		if av := a.val(); len(av) > 0 && av[len(av)-1] == 0 && b.T >= 256 {
+			m[j] = mkComp(a.T, av[:len(av)-1])
+			m[j+1] = mkComp(b.T>>8, append([]byte{byte(b.T)}, b.val()...))
+			return m
+		}
+		if bv := b.val(); len(bv) > 0 && b.T < 1<<24 && (b.T<<8|uint64(bv[0])) >= 1 {
+			m[j] = mkComp(a.T, append(a.val(), 0))
+			m[j+1] = mkComp(b.T<<8|uint64(bv[0]), bv[1:])
+			return m
+		}
+	}
 	switch rapid.IntRange(0, 2).Draw(t, "twinKind") {
 	case 0: // same value, other type
 		nt := rapid.SampledFrom([]uint64{8, 32, 50, 54, 1, 2, 65535}).Draw(t, "ttype")
